@@ -209,6 +209,8 @@ class Ctx:
             self.sample({"replay": what, "case": s})
         for m in rep.get("mismatches", []):
             sig = {"check": what}
+            if "input" in m:
+                sig["input"] = m["input"]
             for k in sigkeys:
                 if k in m:
                     sig[k] = m[k]
